@@ -264,7 +264,8 @@ def tasks(tier):
     for comp in [(), ('none',), (1,), ('none', 1), (1, 'zlib@openssh.com')]:
         T.append(Text(shapes[0], False, comp=comp))
         T.append(Json(shapes[0], False, comp=comp))
-    T.append(Ssh1('decode', 'both'))
+    T.append(Ssh1('decode', 'ciphers'))
+    T.append(Ssh1('decode', 'auths'))
     for v in ('text', 'json'):
         T.append(Ssh1(v, 'ciphers'))
         T.append(Ssh1(v, 'auths'))
@@ -290,7 +291,7 @@ META = {
                   'supported_authentications', 'Algorithms.*'],
     'bounds': {'quick': 'ten name-lists of 0..2 names (1..2 symbolic chars over the RFC 4251 alphabet, a gss-* form) through the real parser; reports for peers with '
                         '0..2 names per category mixing symbolic (unknown) and table-known names, duplicates, empty lists; both roles; plain/verbose/batch/JSON; '
-                        'compression lists of 0..2; ALL 2^32 x 2^32 SSH-1 cipher/authentication masks',
+                        'compression lists of 0..2; ALL 2^32 SSH-1 cipher masks and ALL 2^32 authentication masks (one symbolic at a time)',
                'thorough': 'lists of 3, three-name mixes'},
     'outside': ['the client-to-server lists (the tool reports the server-to-client lists for both roles)', 'names containing blanks', 'level filters (C15)',
                 'non-UTF-8 bytes in names are C10/C09 (decoded with replacement by design)'],
